@@ -293,6 +293,27 @@ def shard_random(shard, nshards, tier, seed, scratch):
                 d.pop('payload', None)
                 big_failures.append({'leg': 'large', 'clause': 'large-' + v.clause, 'detail': d, 'case': {'table': t2[:3], 'delim': dlm, 'policy': policy, 'line_sep': '\n', 'encoding': enc, 'note': 'first 3 of %d records' % n}})
                 break
+    # cells that spell a "missing value" or a keyword of some host language: for CSV they are ordinary text
+    if not big_failures and shard == 1:
+        words = ['None', 'nan', 'NaN', 'NaT', '<NA>', 'null', 'NULL', 'undefined', 'True', 'False', 'true', 'false', '0', '-0', '0.0', 'inf', '-inf', 'N/A', '#N/A', 'nil', '[]', '{}', "''", '\\N', '1e5', '0x1f', ' None', 'None ']
+        table = [[w, 'x' + w, w] for w in words] + [words[:3], ['None', 'None', 'None']]
+        for policy, dlm in (('quoted', ','), ('quoted_rfc', ';'), ('simple', '\t'), ('quoted', '::'), ('monocolumn', ''), ('whitespace', ' ')):
+            t2 = table if policy != 'monocolumn' else [[w] for w in words]
+            if policy == 'whitespace':
+                t2 = [[c.strip(' ') for c in r] for r in table]
+            for enc in (None, 'utf-8', 'latin-1'):
+                try:
+                    check_table(t2, dlm, policy, '\n', enc, None)
+                    stats.evaluations += 1
+                    stats.nontrivial_counted += 1
+                except Violation as v:
+                    d = {k: v.detail.get(k) for k in ('delim', 'policy', 'encoding', 'warnings', 'error')}
+                    d['got'] = repr(v.detail.get('got'))[:300]
+                    big_failures.append({'leg': 'words', 'clause': 'word-cells-' + v.clause, 'detail': d, 'case': {'table': t2, 'delim': dlm, 'policy': policy, 'line_sep': '\n', 'encoding': enc}})
+                    break
+            if big_failures:
+                break
+        stats.bump('word-cells')
     # fields with very many line breaks (one quoted_rfc record spanning thousands of physical lines), very long fields and very wide records
     if not big_failures:
         n_breaks = [999, 1000, 1001, 1500][shard % 4] if tier == 'quick' else 1000 + 997 * (shard + 1)
